@@ -27,10 +27,17 @@ class Member:
         self.enum, self.name, self.value = enum, name, value
 
     def _key(self):
-        return (self.enum, self.value)
+        # IntEnum semantics: members ARE integers, so members of different
+        # enums with the same value compare (and hash) equal, and a member
+        # equals its plain integer value
+        return self.value
 
     def __eq__(self, other):
-        return isinstance(other, Member) and self._key() == other._key()
+        if isinstance(other, Member):
+            return self.value == other.value
+        if isinstance(other, (int, float)) and not isinstance(other, bool):
+            return self.value == other
+        return False
 
     def __ne__(self, other):
         return not self == other
@@ -84,11 +91,14 @@ class MiniEval:
     methods: callable(name) -> FuncInfo-like with .node for `self.m()`
     calls; self_attrs: attribute name -> value for `self.<attr>`.'''
 
-    def __init__(self, enums, self_attrs, methods=None, depth=0):
+    def __init__(self, enums, self_attrs, methods=None, depth=0,
+                 globals_fn=None):
         self.enums = enums
         self.self_attrs = self_attrs
         self.methods = methods or (lambda name: None)
         self.depth = depth
+        # module-level constants: name -> ast expression (or None)
+        self.globals_fn = globals_fn or (lambda name: None)
 
     # ---- functions ---------------------------------------------------------
 
@@ -151,6 +161,11 @@ class MiniEval:
             return env[expr.id]
         if expr.id in ('True', 'False', 'None'):
             return {'True': True, 'False': False, 'None': None}[expr.id]
+        node = self.globals_fn(expr.id)
+        if isinstance(node, ast.expr) and self.depth < 4:
+            sub = MiniEval(self.enums, self.self_attrs, self.methods,
+                           self.depth + 1, self.globals_fn)
+            return sub.ev(node, {})
         raise Unknown(f'name {expr.id}')
 
     def _Attribute(self, expr, env):
@@ -318,7 +333,7 @@ class MiniEval:
                 if meth is None:
                     raise Unknown(f'method {fun.attr}')
                 sub = MiniEval(self.enums, self.self_attrs, self.methods,
-                               self.depth + 1)
+                               self.depth + 1, self.globals_fn)
                 return sub.call_function(meth.node, args)
             base = self.ev(fun.value, env)
             for typ, names in SAFE_METHODS.items():
